@@ -12,10 +12,10 @@ pub const KEYS: &[&str] = &["1", "2", "d/3", "d/4"];
 
 pub const PLACEMENTS: &[&str] = &[
     "block-ref", "block-ref-h2", "inline-para", "heading", "item", "nested-item", "emphasis", "quote", "quote-ref", "after-table",
-    "inline-after-table", "table-cell", "item-2nd-para", "two-same",
+    "inline-after-table", "table-cell", "item-2nd-para", "two-same", "strong-in-emphasis", "emphasis-in-strong",
 ];
 
-pub const KINDS: &[&str] = &["reg", "empty", "wiki", "wikip", "image"];
+pub const KINDS: &[&str] = &["reg", "empty", "wiki", "wikip", "image", "same"];
 
 pub fn place(p: &str, l: &str) -> String {
     match p {
@@ -26,6 +26,8 @@ pub fn place(p: &str, l: &str) -> String {
         "item" => format!("- a {}\n", l),
         "nested-item" => format!("- a\n  - b {}\n", l),
         "emphasis" => format!("x *{}* y\n", l),
+        "strong-in-emphasis" => format!("*see **{}** here*\n", l),
+        "emphasis-in-strong" => format!("**see *{}* here**\n", l),
         "quote" => format!("> q {}\n", l),
         "quote-ref" => format!("> {}\n", l),
         "after-table" => format!("| a |\n|---|\n| b |\n\n{}\n", l),
@@ -44,6 +46,8 @@ pub fn link(kind: &str, url: &str) -> String {
         "wiki" => format!("[[{}]]", url),
         "wikip" => format!("[[{}|t]]", url),
         "image" => format!("![t]({})", url),
+        // the link text is the url itself
+        "same" => format!("[{}]({})", url, url),
         "auto" => format!("<{}>", url),
         _ => panic!("kind {}", kind),
     }
